@@ -51,6 +51,10 @@ void note(const std::string &k, long v);              // extra numeric coverage 
 void begin_case(const CaseFile &c);
 // record_fail: write the (shrinking-stage) failing case; the last one written is the minimal one
 void record_fail(const CaseFile &c, const std::string &msg);
+// shrinking is bounded: once a failure has been recorded, at most ~400 further executions / ~90 s are spent on shrinking;
+// afterwards engines let the remaining shrink candidates pass at once (see VH_BEGIN in gens.hpp).  The clock is used only to
+// bound shrinking effort, never for a verdict.
+bool shrink_exhausted();
 
 struct Engine {
     std::string name;                                  // engine name (also property id prefix)
